@@ -47,6 +47,10 @@ Result run(const std::vector<std::function<void()>> & bodies, std::vector<Decisi
            const std::set<std::pair<int, i64>> & inject, i64 max_steps);
 
 int current_task(); // -1 outside a task
+/// reads issued by a task are schedule points only when the run starts from a pristine process (else the
+/// number of reads depends on what earlier runs already loaded, and a run would not be a function of its plan)
+void set_io_points(bool on);
+bool io_points();
 
 /// process-wide counters (also outside the scheduler): used by `bxsim catalogue`
 i64 total_qng_calls();
